@@ -1028,7 +1028,7 @@ class Interp:
             raise ContractStale(f"loop #{k} in {fr.qual} (line {st.lineno}) iterates a symbolic collection and has no invariant")
         schema = it.py_iter_schema(cx) if hasattr(it, "py_iter_schema") else None
         if schema is None and isinstance(it, SSeq):
-            schema = SeqIter(it)
+            schema = SeqIter(it.snapshot())  # the list object being iterated (not re-read through its container)
         if schema is None:
             raise Unsupported(f"iteration over {it!r}")
         self.cut_loop(cx, fr, st, k, lsp, schema)
@@ -1153,7 +1153,7 @@ class Interp:
     def ex_Set(self, cx, fr, e):
         vals = [self.eval(cx, fr, x) for x in e.elts]
         if any(is_sym(v) for v in vals):
-            raise Unsupported("set display with symbolic elements")
+            return tuple(vals)  # small literal set with symbolic elements: kept as a tuple, converted where a set sort is known
         return set(vals)
 
     def ex_Dict(self, cx, fr, e):
@@ -1508,8 +1508,31 @@ class Interp:
         return self.comprehension(cx, fr, e, "set")
 
     def ex_GeneratorExp(self, cx, fr, e):
+        if len(e.generators) == 1 and not e.generators[0].ifs:
+            src = self.eval(cx, fr, e.generators[0].iter)
+            if isinstance(src, (SSet, SSeq, SMap)) and self.iter_concrete(cx, src) is None:
+                return LazyGen(fr, e, src)  # consumed by all()/any() as a quantified predicate
         r = self.comprehension(cx, fr, e, "list")
         return ConcreteIter(r) if isinstance(r, list) else r
+
+    def quantify_gen(self, cx, g, universal: bool):
+        """all(P(x) for x in S) / any(...) over a symbolic collection: P evaluated once on a generic element."""
+        e, src, fr = g.node, g.src, g.fr
+        sub = Frame(fr.modinfo, fr.qual, Env(fr.env), spec=fr.spec, cls=fr.cls)
+        if isinstance(src, SSeq):
+            i = z3.Int(fresh_name("qi"))
+            elem, rng, bound = src.at(i), z3.And(0 <= i, i < src.n), [i]
+        else:
+            kt = src.kt
+            k = z3.Const(fresh_name("qk"), kt.sort())
+            elem, rng, bound = kt.wrap(k), src.has(k), [k]
+        vals, fails, axioms = self.eval_exprs_on_element(cx, sub, e.generators[0].target, elem, [e.elt], bound[0])
+        for exc, fc in fails:
+            cx.oblige(f"quantified-predicate-total:{exc}", "no-exception", z3.ForAll(bound, z3.Implies(rng, z3.Not(fc))), clause="the predicate is defined for every element")
+        for ax in axioms:
+            cx.assume(z3.ForAll(bound, z3.Implies(rng, ax)))
+        p = as_bool(cx, truth(cx, vals[0]))
+        return SBool(z3.ForAll(bound, z3.Implies(rng, p)) if universal else z3.Exists(bound, z3.And(rng, p)))
 
     def ex_DictComp(self, cx, fr, e):
         return self.comprehension(cx, fr, e, "dict")
@@ -1706,6 +1729,8 @@ class IterState:
             return SInt(self.i)
         if s.kind == "seq":
             self.cur = self.i
+            if getattr(s, "enumerate", False):
+                return (SInt(self.i), s.seq.at(self.i))
             return s.seq.at(self.i)
         k = z3.Const(fresh_name("it_k"), s.kt.sort())
         cx.assume(z3.And(z3.Select(s.dom, k), z3.Not(z3.Select(self.processed, k))))
@@ -1790,6 +1815,26 @@ class KwDict(SVal):
 class ConcreteIter(SVal):
     def __init__(self, items):
         self.items = list(items)
+
+    def py_truth(self, cx):
+        return True
+
+
+class SEnumerate(SVal):
+    def __init__(self, seq):
+        self.seq = seq
+
+    def py_iter_schema(self, cx):
+        it = SeqIter(self.seq)
+        it.enumerate = True
+        return it
+
+
+class LazyGen(SVal):
+    """generator expression over a symbolic collection (only all()/any() can consume it)"""
+
+    def __init__(self, fr, node, src):
+        self.fr, self.node, self.src = fr, node, src
 
     def py_truth(self, cx):
         return True
@@ -1920,6 +1965,15 @@ def make_builtins(interp):
         if items is not None:
             return list(reversed(items))
         raise Unsupported("reversed of symbolic sequence")
+
+    @reg("enumerate")
+    def _enumerate(cx, fr, v):
+        items = interp.iter_concrete(cx, v)
+        if items is not None:
+            return [(i, x) for i, x in enumerate(items)]
+        if isinstance(v, SSeq):
+            return SEnumerate(v.snapshot())
+        raise Unsupported("enumerate() of this value")
 
     @reg("hash")
     def _hash(cx, fr, v):
@@ -2063,6 +2117,8 @@ def make_builtins(interp):
 
     @reg("any")
     def _any(cx, fr, it):
+        if isinstance(it, LazyGen):
+            return interp.quantify_gen(cx, it, universal=False)
         items = interp.iter_concrete(cx, it)
         if items is None:
             raise Unsupported("any() of symbolic")
@@ -2073,6 +2129,8 @@ def make_builtins(interp):
 
     @reg("all")
     def _all(cx, fr, it):
+        if isinstance(it, LazyGen):
+            return interp.quantify_gen(cx, it, universal=True)
         items = interp.iter_concrete(cx, it)
         if items is None:
             raise Unsupported("all() of symbolic")
